@@ -83,6 +83,16 @@ Proof.
   intros H. apply Forall_forall. intros t Ht. rewrite forallb_forall in H. apply word_tok_nb. apply H. exact Ht.
 Qed.
 
+Lemma type_seq_brace_free ty : type_seq ty -> brace_free ty.
+Proof.
+  induction 1 as [|t r Ht _ _ IH|o g c r Ho Hg Hc _ IH]; unfold brace_free in *.
+  - constructor.
+  - constructor; [|exact IH]. apply plain_nb, clause_tok_plain, type_tok_clause, Ht.
+  - constructor; [split; [apply lparen_not_lbrace | apply lparen_not_rbrace]; exact Ho|].
+    apply Forall_app. split; [apply inner_brace_free; exact Hg|].
+    constructor; [split; [apply rparen_not_lbrace | apply rparen_not_rbrace]; exact Hc | exact IH].
+Qed.
+
 Lemma prefix_word_tok l t : prefix_word l t = true -> prefix_tok t = true.
 Proof. unfold prefix_word. intros H. do 5 (apply andb_prop in H as [H _]). exact H. Qed.
 
@@ -107,7 +117,7 @@ Proof.
   intros H. destruct H; unfold brace_free; repeat bf_step;
     try (apply groups_brace_free; assumption);
     try (apply clause_brace_free; assumption);
-    try (apply clause_brace_free, type_toks_clause; assumption);
+    try (apply type_seq_brace_free; assumption);
     try (apply name_nb; assumption);
     try (eapply kw_nb; eassumption);
     try (eapply operator_nb; eassumption);
